@@ -753,6 +753,8 @@ def c11_taskarg(ctx):
     S = ctx.slots
     n = 0
     for (bn, bb), (clo, fns) in sorted(S.task_of_site.items()):
+        if clo == '<wrapper>':
+            continue        # a wrapper around the runner: judged at the closure literals its callers hand to it (their own entries below)
         if clo is None:
             out.fail('C11-TASKARG/%s' % key_of(F.bodies[bn]), 'the thread_task argument of the runner call is not a closure literal', F.bodies[bn].where(), kind='undecided')
             continue
